@@ -1,0 +1,84 @@
+//go:build verif
+
+package influxql
+
+// Functions of the lexer / parser files that existed when the contract files
+// were written and are NOT under a contract of their own. They are listed so
+// that the default sweep contract, which govc generates on every run for
+// functions no contract file mentions, applies to newly added code only.
+// Callers treat them as unknown code bounded by the computed write set (or
+// inline them when they are small and loop-free); nothing is claimed about
+// their bodies here.
+
+//@ func (*ParseError).Error
+//@   props C04
+//@   skip error formatting, not on any parse path that decides a property
+//@ func (*ParseTree).Clone
+//@   props C04
+//@   skip used only when a caller derives its own Language; not on the package's parse paths
+//@ func (*ParseTree).Group
+//@   props C04
+//@   skip init-time table builder: panics on conflicting registrations by design (runs before main, covered by the existing tests of the table)
+//@ func (*ParseTree).Handle
+//@   props C04
+//@   skip init-time table builder: panics on conflicting registrations by design
+//@ func (*ParseTree).With
+//@   props C04
+//@   skip init-time table builder
+//@ func (*validateField).Visit
+//@   props C04
+//@   skip visitor of the SELECT field validation; reached through Walk with a dynamic visitor
+//@ func (ErrorValue).Value
+//@   props C07
+//@   skip the error text of a rejected parameter; scan turns it into a BOUNDPARAM token that every parse function rejects
+//@ func (Token).String
+//@   props C04
+//@   skip diagnostic text only
+//@ func Lookup
+//@   props C04
+//@   skip keyword lookup: map read of a table built at init; inlined at its call sites
+//@ func tokstr
+//@   props C04
+//@   skip diagnostic text only
+//@ func MustParseExpr
+//@   props C04
+//@   skip panics on error by design (documented)
+//@ func MustParseStatement
+//@   props C04
+//@   skip panics on error by design (documented)
+//@ func NewParser
+//@   props C04
+//@   skip constructor; the relation between the io.Reader and the ghost rune stream is an assumption of the Parser contracts
+//@ func NewScanner
+//@   props C04
+//@   skip constructor (see NewParser)
+//@ func newBufScanner
+//@   props C04
+//@   skip constructor (see NewParser)
+//@ func ParseExpr
+//@   props C04
+//@   skip string entry point: wraps (*Parser).ParseExpr, which is under contract; the relation between the string and the rune stream is not modelled
+//@ func ParseQuery
+//@   props C04
+//@   skip string entry point: wraps (*Parser).ParseQuery
+//@ func ParseStatement
+//@   props C04
+//@   skip string entry point: wraps (*Parser).ParseStatement
+//@ func QuoteIdent
+//@   props C06
+//@   skip segment rule of QuoteIdent not yet under contract (C06 undecided clause)
+//@ func addDuration
+//@   props C08
+//@   skip helper of ParseDuration: inlined there, where every + - * is checked against mathematical integers (C08)
+//@ func isDateString
+//@   props C04
+//@   skip regexp match on a string
+//@ func isDateTimeString
+//@   props C04
+//@   skip regexp match on a string
+//@ func jsonNumberToValue
+//@   props C07
+//@   skip json.Number conversion (library parsing)
+//@ func newParseError
+//@   props C04
+//@   skip allocation of the error value
